@@ -1,19 +1,20 @@
 #!/bin/bash
-# usage: lib/confirm_seed.sh <ID> <a|b>   — confirms a seeded change in its scratch worktree /tmp/seed_<ID>
-ID=$1; V=$2; W=/tmp/seed_$ID; OUT=/verif/seeded/${ID}_$V
+# usage: lib/confirm_seed.sh <name e.g. C01_a> <patch> <demo.rs> [cargo feature args]
+# confirms a seeded change in the scratch worktree /tmp/seed_rebase (a worktree of /repo at HEAD):
+#   stock suite (lib + doc) passes with the change; the demo fails with it and passes without.
+N=$1; PATCH=$2; DEMO=$3; shift 3; FEAT="$@"
+W=/tmp/seed_rebase; OUT=/verif/seeded/$N
 cd $W || exit 9
+git checkout -q -- src; rm -f tests/*.rs; mkdir -p tests $OUT
+git apply --check $PATCH || { echo "$N PATCH DOES NOT APPLY"; exit 8; }
+git apply $PATCH
+LIB=$(cargo test --offline $FEAT --lib 2>&1 | grep -E '^test result' | head -1)
+DOC=$(cargo test --offline $FEAT --doc 2>&1 | grep -E '^test result' | tail -1)
+cp $DEMO tests/seed_demo.rs
+WITH=$(cargo test --offline $FEAT --test seed_demo 2>&1 | grep -E '^test result|^error(\[|:)' | head -2 | tr '\n' ' ')
 git checkout -q -- src
-mkdir -p $OUT
-# keep only this demo in tests/ while running the stock suite
-mkdir -p /tmp/seed_hold_$ID && mv tests/*.rs /tmp/seed_hold_$ID/ 2>/dev/null
-git apply --check seed_$V.diff || { echo "PATCH DOES NOT APPLY"; mv /tmp/seed_hold_$ID/*.rs tests/; exit 8; }
-git apply seed_$V.diff
-LIB=$(cargo test --offline --lib 2>&1 | grep -E '^test result' | head -1)
-DOC=$(cargo test --offline --doc 2>&1 | grep -E '^test result' | tail -1)
-cp /tmp/seed_hold_$ID/seed_${ID}_$V.rs tests/
-WITH=$(cargo test --offline --test seed_${ID}_$V 2>&1 | grep -E '^test result|error(\[|:)' | head -3 | tr '\n' ' ')
-git checkout -q -- src
-WITHOUT=$(cargo test --offline --test seed_${ID}_$V 2>&1 | grep -E '^test result|error(\[|:)' | head -3 | tr '\n' ' ')
-mv /tmp/seed_hold_$ID/*.rs tests/ 2>/dev/null
-cp seed_$V.diff $OUT/patch.diff; cp tests/seed_${ID}_$V.rs $OUT/demo.rs; cp seed_$V.md $OUT/notes.md 2>/dev/null
-echo "$ID $V | lib: $LIB | doc: $DOC | demo with change: $WITH | demo without: $WITHOUT" | tee $OUT/confirm.txt
+WITHOUT=$(cargo test --offline $FEAT --test seed_demo 2>&1 | grep -E '^test result|^error(\[|:)' | head -2 | tr '\n' ' ')
+rm -f tests/seed_demo.rs
+[ "$PATCH" -ef "$OUT/patch.diff" ] || cp $PATCH $OUT/patch.diff
+[ "$DEMO" -ef "$OUT/demo.rs" ] || cp $DEMO $OUT/demo.rs
+echo "$N @$(git -C /repo log --format=%h -1) | lib: $LIB | doc: $DOC | demo with change: $WITH | demo without: $WITHOUT" | tee $OUT/confirm.txt
